@@ -67,7 +67,7 @@ def gen_history(rng, n):
             base = rng.choice(events)
             e = dict(base)
             e["id"] = gen.mkid(rng)
-            e["created_at"] = base["created_at"] + rng.choice([-1, 0, 1, 50])
+            e["created_at"] = base["created_at"] + rng.choice([-1, 0, 1, 50]) or 1    # never 0: Event() replaces a falsy timestamp by now
             if rng.random() < 0.3:
                 e["tags"] = gen.gen_tags(rng, ids=known)
             events.append(e)
@@ -89,7 +89,7 @@ def gen_history(rng, n):
             elif rr < 0.2:
                 tags.append(["e", tgt["id"][:-1]])
             e = {"id": gen.mkid(rng), "pubkey": tgt["pubkey"] if rng.random() < 0.7 else rng.choice(gen.AUTHORS[:4]),
-                 "created_at": tgt["created_at"] + rng.choice([-1, 0, 1, 2, 100]), "kind": 5, "tags": tags,
+                 "created_at": (tgt["created_at"] + rng.choice([-1, 0, 1, 2, 100])) or 1, "kind": 5, "tags": tags,
                  "content": "", "sig": "00" * 64}
             events.append(e)
             ops.append(("add", e))
